@@ -306,7 +306,9 @@ def _greedy_facts(c, o, n, A, E, T, T0):
             ('existing-proposals-kept-or-reassigned-only-for-unscheduled-tasks', Q([('t', I)], lambda t: z3.Implies(z3.Select(E.keys, t), z3.Select(A.keys, t)))),
             ('C01-new-allocations-use-machines-of-the-free-list-read-at-the-start', Q([('t', I)], lambda t: z3.Implies(
                 new(t), z3.Select(T0.cnt, z3.Select(A.vals, t)) > 0))),
-            ('free-list-only-shrinks', Q([('m', I)], lambda m: z3.And(z3.Select(T.cnt, m) >= 0, z3.Select(T.cnt, m) <= z3.Select(T0.cnt, m))))]
+            ('free-list-only-shrinks', Q([('m', I)], lambda m: z3.And(z3.Select(T.cnt, m) >= 0, z3.Select(T.cnt, m) <= z3.Select(T0.cnt, m)))),
+            ('proposals-name-objects-or-are-carried-over', Q([('t', I)], lambda t: z3.Implies(z3.Select(A.keys, t), z3.Or(
+                z3.And(t > 0, z3.Select(A.vals, t) > 0), z3.And(z3.Select(E.keys, t), z3.Select(E.vals, t) == z3.Select(A.vals, t))))))]
 
 
 def _greedy_inv(c):
@@ -338,3 +340,35 @@ REG.contract('GreedySchedulingFromPlan.run', world=GPW, params=COMMON_PARAMS,
 REG.loop('GreedySchedulingFromPlan.run', 0, inv=_greedy_inv,
          modifies_locals=['task', 'machine', 'pred', 'finished', 'allocations', 'temporary_resources'],
          modifies=['self.accurate', 'self.alternate', 'heap:WorkflowPlan.status'], props=['C03', 'C01'])
+
+
+# ================================================================================================ the shipped algorithms REFINE the abstract one
+# The scheduler calls `self.algorithm.run(...)` and is verified against the abstract contract `Scheduling.run` (assumed: the 'programs'
+# quantifier).  For the four algorithms that ship with topsim that contract is not taken on trust: each body is also verified against
+# the abstract post-condition (`refines-Scheduling.run:*` obligations) and its declared frame must lie within the abstract frame
+# (the algorithm object's own fields, which the scheduler never reads, excepted).  What remains assumed for them is only what the
+# abstract contract does not promise either: their preconditions (see `requires`) and that they do not raise (S5: an exception aborts
+# the run).
+def refines_scheduling_run(qual, abstract='Scheduling.run'):
+    cc, ac = REG.contracts[qual], REG.contracts[abstract]
+    outside = [m for m in cc.modifies if m not in ac.modifies and not m.startswith('self.')]
+    ens0 = cc.ensures
+
+    def ens(c):
+        out = list(ens0(c)) if ens0 else []
+        k0, k1 = CV(c.o.cluster), CV(c.n.cluster)
+        A, E = c.result[0], c.o.existing_schedule
+        out += [(f'refines-{abstract}:frame-within-the-abstract-frame' + (''.join(' ' + m for m in outside)), z3.BoolVal(not outside)),
+                (f'refines-{abstract}:busy-pools-untouched', z3.And(same_list(k1.ing, k0.ing), same_list(k1.occ, k0.occ))),
+                (f'refines-{abstract}:task-maps-untouched', z3.And(same_list(k1.run, k0.run), k1.fin.keys == k0.fin.keys, k1.fin.vals == k0.fin.vals)),
+                # abstract: every proposal names a task object and a machine object.  The schedule handed in is the scheduler's own
+                # (what earlier calls returned, minus what was started), so: every proposal names objects or is carried over unchanged
+                (f'refines-{abstract}:proposals-name-objects-or-are-carried-over', Q([('t', I)], lambda t: z3.Implies(
+                    z3.Select(A.keys, t), z3.Or(z3.And(t > 0, z3.Select(A.vals, t) > 0),
+                                                z3.And(z3.Select(E.keys, t), z3.Select(E.vals, t) == z3.Select(A.vals, t))))))]
+        return out
+    cc.ensures = ens
+
+
+for _q in ('BatchProcessing.run', 'QueueProcessing.run', 'DynamicSchedulingFromPlan.run', 'GreedySchedulingFromPlan.run'):
+    refines_scheduling_run(_q)
